@@ -552,6 +552,10 @@ class Gen:
             x = {"t": "new", "c": self.ch(["Tuple", "Array"]), "a": [self.g_expr(1, term_only=False) for _ in range(2)]}
         else:
             x = {"t": "meth", "x": self.g_field(alias_ok=False), "m": "isin", "a": [[1, 2, 3]]}
+        if isinstance(x, dict) and x.get("t") == "var":
+            # a root must be a NEW object: a bare reference would make two heap slots one object, which the
+            # slot-wise reference model (and the alias_fx replay) does not describe
+            x = {"t": "bin", "op": "add", "l": x, "r": 1} if c == "term" else {"t": "un", "op": "not", "x": x}
         return self.emit({"op": "new", "x": x}, scope=scope)
 
     def g_statement(self):
